@@ -5,7 +5,7 @@ from core import call_matches, call_names, op_place, op_local, backward_slice
 from props import shared
 
 LEVEL = 'proof'
-FLOOR = 10
+FLOOR = 13      # 70% of the 19 obligation instances derived on the tree the rules were last reviewed against
 EXPLANATION = ('Counts are runtime arithmetic and are not decided. Decided: dereferences (and references) of counted keys are not mirrored as removals in '
                'the commit overlay; every Set is mirrored under the current commit id; with ref_counted on, a Set on an existing key increments and returns '
                'before any replace/remove, and a Dereference removes only through write_dec_ref.')
